@@ -13,35 +13,98 @@ open Atree Health
 theorem health_sound (h : Heap) (hk : (AList.keys h).Nodup) (expected : Option Nat) (R : List SlabID)
     (hok : check h expected = .ok R) :
     Healthy h R ∧ (∀ n, expected = some n → R.length = n) := by
-  sorry
+  have _ := hk   -- not needed: an accepted heap has unique keys anyway
+  exact check_sound h expected R hok
 
 /-- Completeness: every healthy heap with the expected number of roots is accepted, and the
     returned roots are the true roots. -/
 theorem health_complete (h : Heap) (hk : (AList.keys h).Nodup) (R : List SlabID) (hh : Healthy h R)
     (expected : Option Nat) (hn : ∀ n, expected = some n → R.length = n) :
-    ∃ R', check h expected = .ok R' ∧ (∀ id, id ∈ R' ↔ id ∈ R) ∧ R'.length = R.length := by
-  sorry
+    ∃ R', check h expected = .ok R' ∧ (∀ id, id ∈ R' ↔ id ∈ R) ∧ R'.length = R.length :=
+  check_complete h hk R hh expected hn
 
 /-- Deleting a referenced slab makes the check fail. -/
 theorem delete_referenced_fails (h : Heap) (hk : (AList.keys h).Nodup) (R : List SlabID) (hh : Healthy h R)
     (id : SlabID) (href : id ∈ (edges h).map (·.2)) (expected : Option Nat) :
     ∀ R', check (AList.erase h id) expected ≠ .ok R' := by
-  sorry
+  intro R' hok
+  have hh' := (health_sound _ (AList.nodup_keys_erase h id hk) expected R' hok).1
+  obtain ⟨p, he⟩ := (mem_targets h id).mp href
+  have hne : p ≠ id := by
+    rintro rfl
+    exact no_self_loop hh p he
+  have := hh'.resolves _ (mem_edges_erase h id p id he hne)
+  simp only at this
+  rw [contains_erase_self] at this
+  cases this
 
 /-- Adding a slab that nobody references makes the check fail when the expected root count is the
-    original one. -/
+    original one.
+
+    REPAIRED STATEMENT: the hypothesis `hroots` (the new slab does not reference one of the old
+    roots) was added.  Without it the statement is false: a new slab that adopts exactly one old
+    root yields a healthy heap with the same number of roots, see
+    `extra_unreferenced_counterexample` below. -/
 theorem extra_unreferenced_fails (h : Heap) (hk : (AList.keys h).Nodup) (R : List SlabID) (hh : Healthy h R)
     (id : SlabID) (s : HSlab) (hnew : AList.contains h id = false) (hunref : id ∉ (edges h).map (·.2))
-    (hrefs : ∀ r ∈ s.refs, r ≠ id) :
+    (hrefs : ∀ r ∈ s.refs, r ≠ id) (hroots : ∀ r ∈ s.refs, r ∉ R) :
     ∀ R', check ((id, s) :: h) (some R.length) ≠ .ok R' := by
-  sorry
+  intro R' hok
+  obtain ⟨hh', hlen⟩ := health_sound _ (keys_nodup_cons h hk id s hnew) _ R' hok
+  have hlen := hlen _ rfl
+  cases hs : s.refs with
+  | nil =>
+    -- the new slab is an additional root
+    have htg : targets ((id, s) :: h) = targets h := by rw [targets_cons, hs]; rfl
+    have hidR : id ∉ R := by
+      intro hm
+      have := ((hh.roots_iff id).mp hm).1
+      rw [hnew] at this
+      cases this
+    have hmem : ∀ x, x ∈ R' ↔ x ∈ id :: R := by
+      intro x
+      rw [hh'.roots_iff, targets_def, htg, contains_cons, List.mem_cons, hh.roots_iff, targets_def]
+      constructor
+      · rintro ⟨h1 | h1, h2⟩
+        · exact Or.inl h1
+        · exact Or.inr ⟨h1, h2⟩
+      · rintro (rfl | ⟨h1, h2⟩)
+        · exact ⟨Or.inl rfl, hunref⟩
+        · exact ⟨Or.inr h1, h2⟩
+    have hperm := (List.perm_ext_iff_of_nodup hh'.roots_nodup
+      (List.nodup_cons.mpr ⟨hidR, hh.roots_nodup⟩)).mpr hmem
+    have := hperm.length_eq
+    simp at this
+    omega
+  | cons r rs =>
+    -- the first reference is either unresolved or a second reference to a non-root
+    have hr : r ∈ s.refs := by rw [hs]; exact List.mem_cons_self ..
+    have he : (id, r) ∈ edges ((id, s) :: h) := by
+      rw [edges_cons]
+      exact List.mem_append_left _ (List.mem_map.mpr ⟨r, hr, rfl⟩)
+    have hres := hh'.resolves _ he
+    simp only at hres
+    rw [contains_cons] at hres
+    rcases hres with hres | hres
+    · exact hrefs r hr hres
+    · have hrt : r ∈ targets h := by
+        apply Classical.byContradiction
+        intro hnt
+        exact hroots r hr ((hh.roots_iff r).mpr ⟨hres, hnt⟩)
+      have hsingle := hh'.single
+      rw [targets_def, targets_cons, List.nodup_append] at hsingle
+      exact hsingle.2.2 r hr r hrt rfl
 
 /-- Referencing one slab from two places makes the check fail (whatever root count is expected). -/
 theorem double_reference_fails (h : Heap) (hk : (AList.keys h).Nodup) (id : SlabID) (s : HSlab)
     (hnew : AList.contains h id = false) (target : SlabID) (ht : target ∈ s.refs)
     (hdup : target ∈ (edges h).map (·.2)) (expected : Option Nat) :
     ∀ R', check ((id, s) :: h) expected ≠ .ok R' := by
-  sorry
+  intro R' hok
+  have hh' := (health_sound _ (keys_nodup_cons h hk id s hnew) expected R' hok).1
+  have hsingle := hh'.single
+  rw [targets_def, targets_cons, List.nodup_append] at hsingle
+  exact hsingle.2.2 target ht target hdup rfl
 
 /-- Referencing a slab owned by a different address makes the check fail. -/
 theorem foreign_owner_fails (h : Heap) (hk : (AList.keys h).Nodup) (id : SlabID) (s : HSlab)
@@ -49,7 +112,17 @@ theorem foreign_owner_fails (h : Heap) (hk : (AList.keys h).Nodup) (id : SlabID)
     (hfind : AList.find? h target = some t) (hne : target ≠ id) (hown : t.self.addr ≠ s.self.addr)
     (expected : Option Nat) :
     ∀ R', check ((id, s) :: h) expected ≠ .ok R' := by
-  sorry
+  intro R' hok
+  have hh' := (health_sound _ (keys_nodup_cons h hk id s hnew) expected R' hok).1
+  have he : (id, target) ∈ edges ((id, s) :: h) := by
+    rw [edges_cons]
+    exact List.mem_append_left _ (List.mem_map.mpr ⟨target, ht, rfl⟩)
+  have h1 : AList.find? ((id, s) :: h) id = some s := by simp [AList.find?_cons]
+  have h2 : AList.find? ((id, s) :: h) target = some t := by
+    rw [AList.find?_cons]
+    have : ¬ id = target := fun e => hne e.symm
+    simp [this, hfind]
+  exact hown (hh'.owner _ he s t h1 h2).symm
 
 /-- The all-child-references query returns exactly the resolvable and the broken references
     reachable from the given slab (on a heap without reference cycles below it, where the Go loop
@@ -58,7 +131,161 @@ theorem foreign_owner_fails (h : Heap) (hk : (AList.keys h).Nodup) (id : SlabID)
 theorem allrefs_exact (h : Heap) (hk : (AList.keys h).Nodup) (R : List SlabID) (hh : Healthy h R)
     (root : SlabID) (hroot : AList.contains h root = true) :
     ∃ refs broken, allChildReferences h root = some (refs, broken) ∧ broken = [] ∧
-      (∀ id, id ∈ refs ↔ (Reach h root id ∧ id ≠ root)) := by
-  sorry
+      (∀ id, id ∈ refs ↔ (Reach h root id ∧ id ≠ root)) :=
+  allChildReferences_healthy h hk R hh root hroot
+
+/-! ### Decidable equality of check results (for the `decide` examples below) -/
+
+instance decEqCheckResult : DecidableEq (Except HErr (List SlabID))
+  | .ok a, .ok b =>
+    if hab : a = b then isTrue (by rw [hab]) else isFalse (by intro e; cases e; exact hab rfl)
+  | .error a, .error b =>
+    if hab : a = b then isTrue (by rw [hab]) else isFalse (by intro e; cases e; exact hab rfl)
+  | .ok _, .error _ => isFalse (by intro e; cases e)
+  | .error _, .ok _ => isFalse (by intro e; cases e)
+
+/-! ### Why `extra_unreferenced_fails` needed the extra hypothesis `hroots` -/
+
+/-- Counterexample to `extra_unreferenced_fails` as originally stated (without `hroots`): the heap
+    consisting of the single root `1.1` is healthy; adding the unreferenced slab `1.2`, which does
+    not reference itself but references the old root `1.1`, gives a heap that the check accepts
+    with the original root count 1 (the new slab replaces the old root as the only root). -/
+theorem extra_unreferenced_counterexample :
+    ∃ (h : Heap) (R : List SlabID) (id : SlabID) (s : HSlab),
+      (AList.keys h).Nodup ∧ Healthy h R ∧ AList.contains h id = false ∧
+      id ∉ (edges h).map (·.2) ∧ (∀ r ∈ s.refs, r ≠ id) ∧
+      ∃ R', check ((id, s) :: h) (some R.length) = .ok R' := by
+  refine ⟨[(⟨1, 1⟩, ⟨⟨1, 1⟩, []⟩)], [⟨1, 1⟩], ⟨1, 2⟩, ⟨⟨1, 2⟩, [⟨1, 1⟩]⟩, by decide, ?_, by decide,
+    by decide, by decide, [⟨1, 2⟩], by decide⟩
+  exact (health_sound _ (by decide) none _ (by decide)).1
+
+/-! ### Non-vacuity: a concrete healthy heap and its four corruptions -/
+
+section NonVacuity
+
+/-- first tree (owner address 1): root → index → {a, b, c}, a → d -/
+def exRoot1 : SlabID := ⟨1, 1⟩
+def exIdx : SlabID := ⟨1, 2⟩
+def exA : SlabID := ⟨1, 3⟩
+def exB : SlabID := ⟨1, 4⟩
+def exC : SlabID := ⟨1, 5⟩
+def exD : SlabID := ⟨1, 6⟩
+/-- second tree (owner address 2): a single root slab -/
+def exRoot2 : SlabID := ⟨2, 1⟩
+
+/-- the example heap, deliberately not in top-down order -/
+def exHeap : Heap :=
+  [ (exB, ⟨exB, []⟩),
+    (exIdx, ⟨exIdx, [exA, exB, exC]⟩),
+    (exRoot2, ⟨exRoot2, []⟩),
+    (exD, ⟨exD, []⟩),
+    (exRoot1, ⟨exRoot1, [exIdx]⟩),
+    (exA, ⟨exA, [exD]⟩),
+    (exC, ⟨exC, []⟩) ]
+
+theorem exHeap_keys_nodup : (AList.keys exHeap).Nodup := by decide
+
+/-- the check accepts the example with the expected root count 2 and returns the two roots -/
+theorem exHeap_check : check exHeap (some 2) = .ok [exRoot2, exRoot1] := by decide
+
+theorem exHeap_check_any : check exHeap none = .ok [exRoot2, exRoot1] := by decide
+
+/-- a wrong expected root count is rejected -/
+theorem exHeap_check_wrong_count : check exHeap (some 1) = .error .rootCount := by decide
+
+/-- the example satisfies the specification directly (not via `health_sound`) -/
+theorem exHeap_healthy : Healthy exHeap [exRoot2, exRoot1] where
+  resolves := by decide
+  single := by decide
+  owner := by
+    intro e he p c hp hc
+    have hdec : ∀ e ∈ edges exHeap,
+        (AList.find? exHeap e.1).all (fun p => (AList.find? exHeap e.2).all
+          (fun c => decide (p.self.addr = c.self.addr))) = true := by decide
+    have := hdec e he
+    rw [hp, hc] at this
+    simpa using this
+  roots_iff := by
+    intro id
+    constructor
+    · intro hid
+      have hdec : ∀ r ∈ [exRoot2, exRoot1],
+          AList.contains exHeap r = true ∧ r ∉ (edges exHeap).map (·.2) := by decide
+      exact hdec id hid
+    · rintro ⟨hc, hn⟩
+      have hdec : ∀ k ∈ AList.keys exHeap,
+          k ∉ (edges exHeap).map (·.2) → k ∈ [exRoot2, exRoot1] := by decide
+      exact hdec id ((contains_iff_mem_keys exHeap id).mp hc) hn
+  roots_nodup := by decide
+  reach := by
+    intro id hid
+    have hkeys : id ∈ AList.keys exHeap := (contains_iff_mem_keys exHeap id).mp hid
+    have r1 : Reach exHeap exRoot1 exRoot1 := Reach.refl _
+    have rIdx : Reach exHeap exRoot1 exIdx := Reach.step r1 (by decide)
+    have rA : Reach exHeap exRoot1 exA := Reach.step rIdx (by decide)
+    have rB : Reach exHeap exRoot1 exB := Reach.step rIdx (by decide)
+    have rC : Reach exHeap exRoot1 exC := Reach.step rIdx (by decide)
+    have rD : Reach exHeap exRoot1 exD := Reach.step rA (by decide)
+    have r2 : Reach exHeap exRoot2 exRoot2 := Reach.refl _
+    simp only [AList.keys, exHeap, List.map_cons, List.map_nil, List.mem_cons, List.not_mem_nil,
+      or_false] at hkeys
+    rcases hkeys with rfl | rfl | rfl | rfl | rfl | rfl | rfl
+    · exact ⟨exRoot1, by decide, rB⟩
+    · exact ⟨exRoot1, by decide, rIdx⟩
+    · exact ⟨exRoot2, by decide, r2⟩
+    · exact ⟨exRoot1, by decide, rD⟩
+    · exact ⟨exRoot1, by decide, r1⟩
+    · exact ⟨exRoot1, by decide, rA⟩
+    · exact ⟨exRoot1, by decide, rC⟩
+
+/-- the all-child-references query on the example -/
+theorem exHeap_allrefs :
+    allChildReferences exHeap exRoot1 = some ([exIdx, exA, exB, exC, exD], []) := by decide
+
+/-- corruption 1: a referenced slab (`a`, an inner slab; `d`, a leaf) is deleted -/
+theorem exHeap_delete_inner :
+    check (AList.erase exHeap exA) (some 2) = .error .slabNotFound ∧
+    check (AList.erase exHeap exA) none = .error .slabNotFound := by decide
+
+theorem exHeap_delete_leaf :
+    check (AList.erase exHeap exD) (some 2) = .error .slabNotFound ∧
+    check (AList.erase exHeap exD) none = .error .slabNotFound := by decide
+
+/-- the broken reference is also what the all-child-references query reports -/
+theorem exHeap_delete_allrefs :
+    allChildReferences (AList.erase exHeap exD) exRoot1 = some ([exIdx, exA, exB, exC], [exD]) := by
+  decide
+
+/-- corruption 2: an extra slab that nobody references, with the original expected root count -/
+theorem exHeap_extra_unreferenced :
+    check ((⟨1, 7⟩, ⟨⟨1, 7⟩, []⟩) :: exHeap) (some 2) = .error .rootCount := by decide
+
+/-- corruption 3: a new slab holds a second reference to `d` -/
+theorem exHeap_double_reference :
+    check ((⟨1, 7⟩, ⟨⟨1, 7⟩, [exD]⟩) :: exHeap) (some 2) = .error .twoParents ∧
+    check ((⟨1, 7⟩, ⟨⟨1, 7⟩, [exD]⟩) :: exHeap) none = .error .twoParents := by decide
+
+/-- corruption 4: a new slab of owner 2 references the root of the tree of owner 1 -/
+theorem exHeap_foreign_owner :
+    check ((⟨2, 7⟩, ⟨⟨2, 7⟩, [exRoot1]⟩) :: exHeap) (some 2) = .error .owner ∧
+    check ((⟨2, 7⟩, ⟨⟨2, 7⟩, [exRoot1]⟩) :: exHeap) none = .error .owner := by decide
+
+/-- the general theorems apply to the example (their hypotheses are satisfiable) -/
+example : ∀ R', check (AList.erase exHeap exA) (some 2) ≠ .ok R' :=
+  delete_referenced_fails exHeap exHeap_keys_nodup _ exHeap_healthy exA (by decide) (some 2)
+
+example : ∀ R', check ((⟨1, 7⟩, ⟨⟨1, 7⟩, []⟩) :: exHeap) (some 2) ≠ .ok R' :=
+  extra_unreferenced_fails exHeap exHeap_keys_nodup _ exHeap_healthy ⟨1, 7⟩ ⟨⟨1, 7⟩, []⟩
+    (by decide) (by decide) (by decide) (by decide)
+
+example : ∀ R', check ((⟨1, 7⟩, ⟨⟨1, 7⟩, [exD]⟩) :: exHeap) none ≠ .ok R' :=
+  double_reference_fails exHeap exHeap_keys_nodup ⟨1, 7⟩ ⟨⟨1, 7⟩, [exD]⟩ (by decide) exD
+    (by decide) (by decide) none
+
+example : ∀ R', check ((⟨2, 7⟩, ⟨⟨2, 7⟩, [exRoot1]⟩) :: exHeap) none ≠ .ok R' :=
+  foreign_owner_fails exHeap exHeap_keys_nodup ⟨2, 7⟩ ⟨⟨2, 7⟩, [exRoot1]⟩ (by decide) exRoot1
+    ⟨exRoot1, [exIdx]⟩ (by decide) (by decide) (by decide) (by decide) none
+
+end NonVacuity
 
 end Atree.C20
